@@ -52,6 +52,7 @@ fn main() {
     };
     let mut seed: u64 = std::env::var("VERIF_SEED").ok().and_then(|s| s.trim().parse::<i64>().ok()).map(|v| v as u64).unwrap_or(0);
     let mut replay: Option<PathBuf> = None;
+    let mut replay_raw: Option<PathBuf> = None;
     let mut strict = false;
     let mut cases = None;
     let mut shards = std::thread::available_parallelism().map(|n| n.get()).unwrap_or(16).min(16);
@@ -82,6 +83,16 @@ fn main() {
                 i += 1;
                 replay = args.get(i).map(PathBuf::from);
             }
+            "--replay-bytes" => {
+                i += 1;
+                replay_raw = args.get(i).map(PathBuf::from);
+            }
+            "--fuzz-stats" => {
+                i += 1;
+                if let Some(f) = args.get(i) {
+                    std::env::set_var("VERIF_FUZZ_STATS", f);
+                }
+            }
             "--strict" => strict = true,
             _ => usage(),
         }
@@ -91,7 +102,20 @@ fn main() {
     // machine unless overridden explicitly.
     let _ = shards;
     let shards = std::env::var("VERIF_SHARDS").ok().and_then(|s| s.parse().ok()).unwrap_or(16usize);
-    let code = if let Some(path) = replay {
+    let code = if let Some(path) = replay_raw {
+        let data = std::fs::read(&path).expect("read artifact");
+        match id.as_str() {
+            "C10" => vharness::fuzzing::replay_artifact(&props::c10::C10, &data),
+            "C12" => vharness::fuzzing::replay_artifact(&props::c12::C12, &data),
+            "C13" => vharness::fuzzing::replay_artifact(&props::c13::C13, &data),
+            "C15" => vharness::fuzzing::replay_artifact(&props::c15::C15, &data),
+            "C19" => vharness::fuzzing::replay_artifact(&props::c19::C19, &data),
+            other => {
+                eprintln!("no byte-level decoder for {other}");
+                2
+            }
+        }
+    } else if let Some(path) = replay {
         dispatch!(id.as_str(), replay_file, &path, strict)
     } else {
         let opts = RunOpts { tier, seed, shards, cases_override: cases };
